@@ -235,6 +235,74 @@ VCLAUSE(continuous, 60, 10000, 200000, "the argument pair straddles a branch poi
 		VCLOSE(c, "normal_cdf_reference", ca, (double) ref::normal_cdf(a, D.centre, D.scale), 4 * EPS, "CDF_Gauss vs erfc reference");
 }
 
+// the chi-square family against an independent reference over its whole support, including the neighbourhood of zero where the density of
+// fewer than two degrees of freedom is singular (the coherence clause cannot integrate through that); and the two-dimensional Gaussian
+VCLAUSE(references, 40, 10000, 200000, "fewer than two degrees of freedom with an argument below 0.01, or more than 200 degrees of freedom")
+{
+	Src& s = c.s;
+	if(s.chance(0.25))
+	{
+		std::pair<double, double> mean(s.mixed(-3, 3), s.mixed(-3, 3)), sigma(std::pow(10.0, s.uniform(-3, 3)), std::pow(10.0, s.uniform(-3, 3)));
+		double x = mean.first + sigma.first * s.uniform(-8, 8), y = mean.second + sigma.second * s.uniform(-8, 8);
+		c.cls("gauss_2d");
+		VLOG(c, "PDF_Gauss_2D(" << x << "," << y << ") mean (" << mean.first << "," << mean.second << ") sigma (" << sigma.first << "," << sigma.second << ")");
+		double p = 0, px = 0, py = 0;
+		VMUST_RETURN("PDF_Gauss_2D", p = PDF_Gauss_2D(x, y, mean, sigma); px = PDF_Gauss(x, mean.first, sigma.first); py = PDF_Gauss(y, mean.second, sigma.second));
+		long double tx = ((long double) x - mean.first) / sigma.first, ty = ((long double) y - mean.second) / sigma.second;
+		long double rp = expl(-0.5L * (tx * tx + ty * ty)) / (2 * M_PIl * sigma.first * sigma.second);
+		VCHECK(p >= 0 && std::isfinite(p), "PDF_Gauss_2D = " << p);
+		// the exponent (up to 64) is rounded once: relative error up to 64 eps
+		VCLOSE(c, "gauss_2d_reference", p, (double) rp, 256 * EPS * (double) rp + 1e-300, "PDF_Gauss_2D vs the closed form in long double");
+		VCLOSE(c, "gauss_2d_is_product_of_marginals", p, px * py, 256 * EPS * px * py + 1e-300, "PDF_Gauss_2D vs the product of the one-dimensional densities");
+		return;
+	}
+	double dof = s.pick({2, 2, 1}) == 0 ? s.uniform(0.5, 10) : (s.coin() ? std::pow(10.0, s.uniform(std::log10(0.5), std::log10(400.0))) : (double) s.range(1, 400));
+	double x;
+	switch(s.pick({3, 3, 1, 1}))
+	{
+		case 0: x = dof + (std::sqrt(2 * dof) + 1) * s.uniform(-4, 8); break;
+		case 1: x = std::pow(10.0, s.uniform(-12, 0)) * (s.coin() ? 1.0 : dof); break;	  // next to zero
+		case 2: x = dof + 2.0 + s.sign() * std::pow(10.0, s.uniform(-9, 0)); break;		  // both sides of the series / continued-fraction switch
+		default: x = dof * std::pow(10.0, s.uniform(0, 1.5)); break;					  // upper tail
+	}
+	if(!(x > 0))
+		x = std::pow(10.0, s.uniform(-12, 0));
+	if((dof < 2 && x < 0.01) || dof > 200)
+		c.nt();
+	c.cls(dof < 2 ? "chi_square_dof_below_2" : (dof / 2 > 100 ? "chi_square_dof_above_200" : "chi_square"));
+	VLOG(c, "chi-square dof=" << dof << " x=" << x);
+	double pdf = 0, cdf = 0;
+	VMUST_RETURN("PDF_Chi_Square/CDF_Chi_Square", pdf = PDF_Chi_Square(x, dof); cdf = CDF_Chi_Square(x, dof));
+	long double rpdf = ref::chi2_pdf(x, dof), rcdf = ref::chi2_cdf(x, dof);
+	double acc = dof / 2 <= 100 ? 2e-12 : 2e-3;	  // accuracy class of the regularized incomplete gamma function (C06)
+	VCLOSE(c, "chi_square_cdf_reference", cdf, (double) rcdf, acc, "CDF_Chi_Square(" << x << "," << dof << ") vs the reference");
+	// the density is a closed form (power, exponential, gamma function): relative accuracy, the exponent carries |log| up to ~1e3
+	VCLOSE(c, "chi_square_pdf_reference", pdf, (double) rpdf, 1e-11 * (double) rpdf + 1e-300, "PDF_Chi_Square(" << x << "," << dof << ") vs the reference");
+	// chi-bar mixtures are the weighted sums (weight 0 is the atom at zero)
+	int k = (int) s.range(1, 6);
+	std::vector<double> w((size_t) k + 1);
+	double tot = 0;
+	for(auto& v : w)
+	{
+		v = s.chance(0.2) ? 0.0 : s.unit();
+		tot += v;
+	}
+	if(tot == 0)
+		w[0] = tot = 1;
+	for(auto& v : w)
+		v /= tot;
+	double pb = 0, cb = 0;
+	VMUST_RETURN("PDF/CDF_Chi_Bar_Square", pb = PDF_Chi_Bar_Square(x, w); cb = CDF_Chi_Bar_Square(x, w));
+	long double rpb = 0, rcb = w[0];
+	for(int d = 1; d <= k; d++)
+	{
+		rpb += w[(size_t) d] * ref::chi2_pdf(x, d);
+		rcb += w[(size_t) d] * ref::chi2_cdf(x, d);
+	}
+	VCLOSE(c, "chi_bar_cdf_reference", cb, (double) rcb, 2e-12 * (k + 1), "CDF_Chi_Bar_Square(" << x << ") with weights " << show(w));
+	VCLOSE(c, "chi_bar_pdf_reference", pb, (double) rpb, 1e-11 * (double) rpb + 1e-300, "PDF_Chi_Bar_Square(" << x << ") with weights " << show(w));
+}
+
 VCLAUSE(discrete, 40, 10000, 200000, "counts beyond the mean plus one (continued-fraction branch of the incomplete gamma function), p at 0 or 1, or trials > 100")
 {
 	Src& s = c.s;
@@ -361,9 +429,10 @@ VCLAUSE(likelihoods, 80, 10000, 200000, "a background is given and some bin has 
 	bool with_bkg = s.coin(), zero_bin = false;
 	for(int i = 0; i < bins; i++)
 	{
-		sig[(size_t) i] = std::pow(10.0, s.uniform(-3, 2.5));
-		bkg[(size_t) i] = with_bkg ? std::pow(10.0, s.uniform(-3, 2)) : 0.0;
-		obs[(size_t) i] = s.chance(0.25) ? 0ul : (unsigned long) s.range(1, 300);
+		// signal plus background over the stated range of Poisson means 1e-3..1e3, counts 0..500
+		sig[(size_t) i] = std::pow(10.0, s.uniform(-3, with_bkg ? 2.69 : 3));
+		bkg[(size_t) i] = with_bkg ? std::pow(10.0, s.uniform(-3, 2.69)) : 0.0;
+		obs[(size_t) i] = s.chance(0.25) ? 0ul : (unsigned long) s.range(1, 500);
 		if(obs[(size_t) i] == 0)
 			zero_bin = true;
 	}
